@@ -215,7 +215,8 @@ def apiSubscribe (p : Nat) (arg : SubArg) (qos : Int) : Step :=
       else match topics with
         | none => emit (.retFail .type)
         | some ts =>
-          if ts.any (fun tq => ¬ (0 ≤ tq.2 ∧ tq.2 < 3)) then emit (.retFail .value)
+          if ts.isEmpty then emit (.retFail .value)             -- a SUBSCRIBE must name at least one topic [MQTT-3.8.3-3]
+          else if ts.any (fun tq => ¬ (0 ≤ tq.2 ∧ tq.2 < 3)) then emit (.retFail .value)
           else makeId fun i =>
             match encodeWithId 0x82 i (encTopicsQPy ts) with
             | .error e => emit (.retFail e)
@@ -235,6 +236,8 @@ def apiUnsubscribe (p : Nat) (arg : UnsubArg) : Step :=
       else match topics with
         | none => emit (.retFail .type)
         | some ts =>
+          if ts.isEmpty then emit (.retFail .value)             -- an UNSUBSCRIBE must name at least one topic [MQTT-3.10.3-2]
+          else
           makeId fun i =>
             match encodeWithId 0xA2 i (encTopicsPy ts) with
             | .error e => emit (.retFail e)
